@@ -76,7 +76,7 @@ def renderR (d : RDict) : String :=
 
 def renderC (d : CDict) : String :=
   let cl := match d.cloud with | .gcp => "gcp" | .azure => "azure"
-  let head := s!"{cl} {d.version} {d.machineType} {b01 d.preemptible} {b01 d.localSsd} {d.dataDiskGb} {d.bootDiskGb} {b01 d.jobPrivate}"
+  let head := s!"{cl} {d.version} {d.machineType} {b01 d.jobPrivate}"
   match d.resources with
   | none => head ++ " ~"
   | some rs => joinWith " | " (head :: rs.map renderR)
